@@ -42,8 +42,12 @@ Definition opt_list (o : option N) : list N := match o with Some i => [i] | None
 Definition ids (m : omap) : list N := flat_map (fun kv => opt_list (c_id (snd kv))) m.
 Definition okeys (m : omap) : list N := map fst m.
 
-(* an accepted (cs, ca) duple waiting in .axes: ca, malformed?, socket id, handshake script *)
-Definition axe := (N * bool * N * list hs)%type.
+(* what serviceAxes finds when it looks at an accepted socket: fine, addresses malformed (ValueError),
+   or already reset by the peer (getpeername raises ENOTCONN/ECONNABORTED: closed and skipped) *)
+Inductive ak := AOk | ABad | AGone.
+
+(* an accepted (cs, ca) duple waiting in .axes: ca, kind, socket id, handshake script *)
+Definition axe := (N * ak * N * list hs)%type.
 Definition axe_id (e : axe) : N := snd (fst e).
 
 Record server := { ss : option N; axes : list axe; cxes : omap; ixes : omap;
@@ -86,7 +90,7 @@ Definition server_open (tls : bool) s (bindfail : bool) : server * res bool :=
 Definition server_reopen tls s bindfail := server_open tls (server_close tls s) bindfail.
 
 (* ---------- accepting ---------- *)
-Fixpoint accept_all s (conns : list (N * bool * list hs)) : server :=
+Fixpoint accept_all s (conns : list (N * ak * list hs)) : server :=
   match conns with
   | [] => s
   | (ca, bad, h) :: conns' =>
@@ -114,11 +118,14 @@ Definition close_cx_if s ca :=
 Definition axes_body (tls : bool) s (e : axe) : server * option exn :=
   match e with
   | (ca, bad, i, h) =>
-    if bad then (add_closed s [i], Some ValueErr)
-    else
+    match bad with
+    | ABad => (add_closed s [i], Some ValueErr)
+    | AGone => (add_closed s [i], None)      (* not kept so closed; the loop goes on *)
+    | AOk =>
       let c := {| c_id := Some i; c_cut := false; c_hs := h |} in
       if tls then let s1 := close_cx_if s ca in (set_cxes s1 (oupd (cxes s1) ca c), None)
       else let s1 := close_ix_if s ca in (set_ixes s1 (oupd (ixes s1) ca c), None)
+    end
   end.
 Fixpoint axes_loop (tls : bool) (fuel : nat) s : server * res bool :=
   match fuel with
@@ -223,10 +230,10 @@ Definition close_ix s ca : server * res bool :=
 
 Inductive sev :=
 | Reopen (bindfail : bool)
-| SvcAccepts (conns : list (N * bool * list hs))
-| SvcAxes (conns : list (N * bool * list hs))
+| SvcAccepts (conns : list (N * ak * list hs))
+| SvcAxes (conns : list (N * ak * list hs))
 | SvcCxes
-| SvcConnects (conns : list (N * bool * list hs))
+| SvcConnects (conns : list (N * ak * list hs))
 | Recv (ca : N) (o : rout)
 | RemoveIx (ca : N)
 | CloseIx (ca : N)
@@ -378,15 +385,18 @@ Definition check_case (k : case) : bool :=
 
 (* ---------- branch classifier (generator coverage) ---------- *)
 Definition is_exc (r : res bool) : bool := match r with Exc _ => true | Ok _ => false end.
+Definition has_gone (cs : list (N * ak * list hs)) : bool :=
+  existsb (fun c => match snd (fst c) with AGone => true | _ => false end) cs.
 Definition sbranch (tls : bool) s (e : sev) : nat :=
   let (s1, r) := sstep tls s e in
   let grew := Nat.ltb (length (closed s)) (length (closed s1)) in
   match e with
   | Reopen b => if b then 1 else 0
   | SvcAccepts _ => if is_exc r then 3 else 2
-  | SvcAxes _ => match r with Exc ValueErr => 5 | Exc _ => 6 | Ok _ => if grew then 30 else 4 end
+  | SvcAxes cs => match r with Exc ValueErr => 5 | Exc _ => 6
+                  | Ok _ => if has_gone cs then 35 else if grew then 30 else 4 end
   | SvcCxes => if is_exc r then 8 else if grew then 31 else 7
-  | SvcConnects _ => if is_exc r then 10 else if grew then 32 else 9
+  | SvcConnects cs => if is_exc r then 10 else if has_gone cs then 36 else if grew then 32 else 9
   | Recv _ _ => if is_exc r then 12 else if grew then 33 else 11
   | RemoveIx _ => if is_exc r then 14 else 13
   | CloseIx _ => if is_exc r then 16 else 15
@@ -404,7 +414,7 @@ Fixpoint sbranches tls s l : list nat :=
   match l with [] => [] | e :: l' => sbranch tls s e :: sbranches tls (fst (sstep tls s e)) l' end.
 Fixpoint cbranches tls c l : list nat :=
   match l with [] => [] | e :: l' => cbranch tls c e :: cbranches tls (fst (cstep tls c e)) l' end.
-Definition n_branches : nat := 35.
+Definition n_branches : nat := 37.
 Definition case_branches (k : case) : list nat :=
   match k_evs k with
   | SrvEvs l => sbranches (k_tls k) init l
